@@ -37,7 +37,7 @@ func NewTsBuilder(w *parser.Walker) *TsBuilder {
 
 func (b *TsBuilder) buildConstPart() {
 	b.ConstPart = "// const part \n"
-	for _, identifier := range b.vnode.GetIdsymtabl() {
+	for _, identifier := range b.vnode.SortedIdsymtabl() {
 		if identifier.IDTyp == parser.TERMID &&
 			!parser.TestPrefix(identifier.Name) {
 			b.ConstPart += fmt.Sprintf("const %s = %d\n", identifier.Name, identifier.Value)
